@@ -55,6 +55,11 @@ def run_graphs(ctx, order, prop_assumptions, small=False):
     for i, c in enumerate(cases):
         c["rot"] = i
         c["root"] = "R"
+        if i % 3 == 1:
+            # same graph over keys whose YAML spelling is not canonical: x -> 12 (written 0xc, 1_2, +12 ...), y -> true (True, TRUE)
+            ren = {"x": "12", "y": "true"}
+            c["g"] = {n: [dict(e, k=ren.get(e["k"], e["k"])) for e in es] for n, es in c["g"].items()}
+            c["spell"] = True
     traces, sums = vlib.drive_cases(ctx, "c07", cases, nchunks=12)
     t2, s2 = vlib.drive_gen(ctx, "c07", 8, extra=["-n", (1500 if thorough else 150) // (3 if small else 1)])
     n, bad = vlib.judge(ctx, "Trace_YamlGraph", traces + t2, cfg_text=tcfg, timeout=3000)
